@@ -65,8 +65,10 @@ theorem stepInstr_safe (b : Bool) (cfg : Cfg) (sh : Shared) (pooled : Bool) (i :
       · trivial
       · exact hr j hj
     · exact ⟨cons trivial, by simp⟩
-    · refine ⟨?_, by simp⟩
-      cases pooled <;> simp [SafeI]
+    · split
+      · exact ⟨cons trivial, by simp⟩
+      · refine ⟨?_, by simp⟩
+        cases pooled <;> simp [SafeI]
   | track e => exact ⟨cons trivial, by simp [stepInstr]⟩
   | dec e =>
     simp only [stepInstr]
@@ -109,7 +111,9 @@ theorem stepInstr_np_pooled (cfg : Cfg) (sh : Shared) (pooled : Bool) (i : Instr
       · trivial
       · exact hr j hj
     · exact cons trivial
-    · cases pooled <;> simp [NoPanicI]
+    · split
+      · exact cons trivial
+      · cases pooled <;> simp [NoPanicI]
   | track e => exact cons trivial
   | dec e => simp only [stepInstr]; (repeat' split) <;> first | exact hr | exact cons trivial
   | load own => exact cons trivial
@@ -226,7 +230,7 @@ theorem gap_step_eq {cfg : Cfg} {s : State} {n : Nat} {pooled : Bool} {i : Instr
   simp only at h2
   omega
 
-theorem mainA_step {cfg : Cfg} {s s' : State} {n : Nat} (hinv : MainA s)
+theorem mainA_step {cfg : Cfg} (hsr : cfg.stageRecover = false) {s s' : State} {n : Nat} (hinv : MainA s)
     (h : stepAt cfg s n = some s') : MainA s' ∨ MainB s' := by
   have hwf' := step_wf hinv.wf h
   obtain ⟨m, rest, hth, hmp, hmain, hpool⟩ := hinv.shape
@@ -245,7 +249,7 @@ theorem mainA_step {cfg : Cfg} {s s' : State} {n : Nat} (hinv : MainA s)
       refine ⟨⟨false, (stepInstr cfg s.sh false (.exec st) rest0).code⟩,
         rest ++ (stepInstr cfg s.sh false (.exec st) rest0).spawn, ?_, rfl, Or.inl ?_⟩
       · rw [hth]; simp only [List.set_cons_zero, List.cons_append]
-      · simp only [stepInstr, ho]; rfl
+      · simp only [stepInstr, ho, hsr]; rfl
     · have hsafe : i.safeExec false rest0 := by
         cases i <;> simp only [Instr.safeExec]
         rename_i st
@@ -292,7 +296,8 @@ theorem mainA_step {cfg : Cfg} {s s' : State} {n : Nat} (hinv : MainA s)
     · rw [hth]; simp only [List.set_cons_succ, List.cons_append]
     · exact forall_step hpool (And.intro (by simp) ⟨hsf.1, Or.inr hnp'⟩) (fun t ht => (hsf.2 t ht).pooledOK)
 
-theorem invRec_reachable {cfg : Cfg} {root : Stage} {s : State} (hrec : root.recoverable true = true)
+theorem invRec_reachable {cfg : Cfg} (hsr : cfg.stageRecover = false) {root : Stage} {s : State}
+    (hrec : root.recoverable true = true)
     (hr : Reachable cfg (init root) s) : InitPhase root s ∨ MainA s ∨ MainB s := by
   refine Reachable.invariant (P := fun s => InitPhase root s ∨ MainA s ∨ MainB s)
     (Or.inl (initPhase_init root)) ?_ hr
@@ -301,7 +306,7 @@ theorem invRec_reachable {cfg : Cfg} {root : Stage} {s : State} (hrec : root.rec
   · rcases initPhase_step hi hs with hi' | ⟨hsh, ht⟩
     · exact Or.inl hi'
     · exact Or.inr (Or.inl (mainA_first hrec hsh ht))
-  · exact Or.inr (mainA_step hm hs)
+  · exact Or.inr (mainA_step hsr hm hs)
   · exact Or.inr (Or.inr (mainB_step hb hs))
 
 /-- at the end of such a run the pipeline is completed -/
